@@ -293,6 +293,7 @@ type c19KeyClient struct {
 
 func (k *c19KeyClient) GetServerKeys(ctx context.Context, server spec.ServerName) (ServerKeys, error) {
 	if k.s == nil {
+		c19Beat()
 		r, _ := k.w.direct(string(server))
 		return r.keys, r.err
 	}
@@ -303,6 +304,7 @@ func (k *c19KeyClient) GetServerKeys(ctx context.Context, server spec.ServerName
 
 func (k *c19KeyClient) LookupServerKeys(ctx context.Context, server spec.ServerName, _ map[PublicKeyLookupRequest]spec.Timestamp) ([]ServerKeys, error) {
 	if k.s == nil {
+		c19Beat()
 		r := k.w.notary(string(server))
 		return r.list, r.err
 	}
@@ -702,6 +704,22 @@ func c19KeysRun(out *c19Out, raw []byte) {
 	for f := range faults {
 		out.Class("server/" + f)
 	}
+	widest := 0
+	for _, rec := range allFetches {
+		if len(rec.Servers) > widest {
+			widest = len(rec.Servers)
+		}
+	}
+	switch {
+	case widest > 64:
+		out.Class("widest-fetch/more-than-64-servers (more servers than workers)")
+	case widest == 64:
+		out.Class("widest-fetch/64-servers")
+	case widest > 5:
+		out.Class("widest-fetch/6-63-servers")
+	default:
+		out.Class("widest-fetch/up-to-5-servers")
+	}
 	if nVerify > 0 {
 		out.Class("op/verify")
 	}
@@ -712,8 +730,63 @@ func c19KeysRun(out *c19Out, raw []byte) {
 
 func c19KeysCheck(ctx *vfCtx, c c19KeysCase) { c19Check(ctx, "keys", c) }
 
+// C19/keys-wide — enumerated (the same cases at every seed): ONE batch that names many distinct
+// servers, around and beyond the size of DirectKeyFetcher's worker pool (64), next to a second
+// goroutine with a small batch on the same ring. Fault classes per server cycle through the whole
+// list; the schedule is empty, i.e. everything parked is released together (no fine-grained
+// interleaving here). Judged by the oracles of C19/keys: every FetchKeys result is exactly the
+// union of the succeeded servers' results, every verdict as expected, and no reproducible hang.
+var c19WideSizes = []int{63, 64, 65, 66, 100, 130}
+
+func c19KeysWideCase(n int, kind string, db bool) c19KeysCase {
+	c := c19KeysCase{DB: db}
+	faults := []string{"ok", "err+notary-ok", "ok", "bad+notary-ok", "ok", "err+notary-err", "ok", "bad+notary-missing", "ok", "err+notary-other"}
+	// server 0 is the local one: the batch names n distinct NON-local servers
+	c.Servers = append(c.Servers, c19KeySrv{Fault: "ok", NKeys: 1, Local: true})
+	for i := 1; i <= n; i++ {
+		c.Servers = append(c.Servers, c19KeySrv{Fault: faults[i%len(faults)], NKeys: 1 + i%2, Old: i%7 == 0})
+	}
+	wide := c19KeyOp{Kind: kind}
+	for i := 0; i <= n; i++ {
+		sig := "good"
+		if i%11 == 5 {
+			sig = "wrong-key"
+		}
+		wide.Items = append(wide.Items, c19KeyItem{Srv: i, Key: i % 3, Sig: sig})
+	}
+	small := c19KeyOp{Kind: "verify", Items: []c19KeyItem{{Srv: 1, Key: 0, Sig: "good"}, {Srv: 2, Key: 0, Sig: "good"}, {Srv: n, Key: 0, Sig: "good"}}}
+	c.Progs = [][]c19KeyOp{{wide}, {small}}
+	return c
+}
+
+func c19KeysWideEnum(size, shard, nshards int, emit func(c19KeysCase)) {
+	n := 0
+	for i, servers := range c19WideSizes {
+		var variants []c19KeysCase
+		if size <= 1 {
+			// quick: one case per size, alternating the kind of the wide batch (4 of the 6 sizes are above 64)
+			variants = append(variants, c19KeysWideCase(servers, []string{"fetch", "verify"}[i%2], i%2 == 0))
+		} else {
+			for _, kind := range []string{"fetch", "verify"} {
+				for _, db := range []bool{false, true} {
+					variants = append(variants, c19KeysWideCase(servers, kind, db))
+				}
+			}
+		}
+		for _, v := range variants {
+			if n%nshards == shard {
+				emit(v)
+			}
+			n++
+		}
+	}
+}
+
 func init() {
 	c19Scenarios["keys"] = c19KeysRun
+	vfEnum("C19/keys-wide",
+		"one FetchKeys / VerifyJSONs batch names 63-130 distinct non-local servers (around and beyond the 64 workers of the pool) while a second goroutine uses the same ring",
+		1, 2, 4, c19KeysWideEnum, c19KeysCheck)
 	vfRapid("C19/keys",
 		"at least two key requests of the one DirectKeyFetcher are in flight (parked in the key client) at the same time",
 		200, 5000, 8, c19KeysGen, c19KeysCheck)
